@@ -55,6 +55,15 @@ Ltac gen_cover_atoms :=
       end
   end.
 
+Ltac gen_conj_fast := repeat split; first [ assumption | exact I ].
+Ltac gen_conj_slow := repeat split; first [ assumption | exact I | lra ].
+Ltac gen_disj_search conj :=
+  lazymatch goal with
+  | |- _ \/ _ => first [ left; solve [conj] | right; gen_disj_search conj ]
+  | |- _ => solve [conj]
+  end.
+Ltac gen_disj := first [ gen_disj_search gen_conj_fast | gen_disj_search gen_conj_slow ].
+
 Ltac gen_cover :=
   cbv zeta;
-  first [ tauto | gen_cover_atoms; first [ tauto | lra ] ].
+  first [ solve [gen_disj] | gen_cover_atoms; gen_disj ].
